@@ -78,6 +78,19 @@ def apply(fn_copy, idx, kind):
 _G = {}
 
 
+def find(body, parts):
+    """locate a function by qualname in a raw (un-normalised) parse of the module"""
+    for st in body:
+        if isinstance(st, (ast.FunctionDef, ast.ClassDef)) and st.name == parts[0]:
+            if len(parts) == 1:
+                return st
+            rest = parts[1:]
+            if rest[0] == "<locals>":
+                rest = rest[1:]
+            return find(st.body, rest)
+    return None
+
+
 def work(job):
     prop, relpath, qual, idx, kind, desc = job
     base = _G["base"]
@@ -85,17 +98,6 @@ def work(job):
     with warnings.catch_warnings():
         warnings.simplefilter("ignore")
         tree = ast.parse(mod.source)
-    # locate function by qualname
-    def find(body, parts):
-        for st in body:
-            if isinstance(st, (ast.FunctionDef, ast.ClassDef)) and st.name == parts[0]:
-                if len(parts) == 1:
-                    return st
-                rest = parts[1:]
-                if rest[0] == "<locals>":
-                    rest = rest[1:]
-                return find(st.body, rest)
-        return None
     fn = find(tree.body, qual.split("."))
     if fn is None:
         return job, "nofn"
@@ -106,7 +108,9 @@ def work(job):
         rc, ctx, new, old = run_property(prop, "quick", repo=repo, quiet=True, write=False)
         base_keys = _G["base_keys"]
         keys = {f.key() for f in new + old}
-        return job, ("killed:" + ",".join(sorted({f.rule for f in new + old if f.key() not in base_keys}))) if keys - base_keys else "survived"
+        if keys - base_keys:
+            return job, "killed:" + ",".join(sorted({f.rule for f in new + old if f.key() not in base_keys}))
+        return job, ("undecided:" + ",".join(sorted({f.rule for f in ctx.undecided_list}))) if ctx.undecided_list else "survived"
     except AnalysisError as e:
         return job, "analysis-error"
     except Exception as e:
@@ -127,7 +131,7 @@ def main():
         mod = base.modules[modname]
         with warnings.catch_warnings():
             warnings.simplefilter("ignore")
-            fn = mod.funcs.get(qual)
+            fn = find(ast.parse(mod.source).body, qual.split("."))     # the loader's tree is normalised: index the raw source like the worker
         if fn is None:
             continue
         # re-parse to get an index-stable walk identical to the worker's
